@@ -30,7 +30,7 @@ func init() {
 	vlib.Register(&vlib.Prop{
 		ID:    "C08",
 		Level: "exploration",
-		Cases: func(tier string) int { return vlib.TierN(tier, 1000, 40000) },
+		Cases: func(tier string) int { return vlib.TierN(tier, 1000, 320000) },
 		Run:   run,
 		Rule: "one random Router per case: 1..6 handlers, subscribe/publish topics from a pool of 3 (sharing allowed, occasionally the empty topic), " +
 			"1..n scripted subscribers and publishers shared or private (Stringer *vlib.Sub/*vlib.Pub, or non-Stringer pointer/value wrappers to exercise the %T naming rule), " +
